@@ -9,7 +9,7 @@ use ark_bulletproofs::{BulletproofGens, PedersenGens};
 use merlin::Transcript;
 use serde_json::{json, Value};
 
-pub const GENS_ERR: &str = "Invalid generators size, too few generators for proof";
+pub const GENS_ERR: &str = "InvalidGeneratorsLength";
 
 #[derive(Clone, Debug)]
 pub struct Case {
@@ -87,7 +87,7 @@ pub fn run_case<G: Cv>(c: &Case, seed: u64) -> Out {
                     let mut tr = Transcript::new(program::LABEL);
                     let (v, _ctx) = build_verifier::<G, &mut Transcript>(&prog, &pc, &mut tr, seed, Dev::None, &comms);
                     let mut rng = crate::alphabet::chacha(seed, "c17-batch");
-                    batch_verify(&mut rng, vec![(v, &proof)], &pc, &gens[ci]).map_err(|e| format!("{:?}", e))
+                    batch_verify(&mut rng, vec![(v, &proof)], &pc, &gens[ci]).map_err(|e| program::err_name(&e))
                 } else {
                     program::verify::<G>(&prog, &pc, &gens[ci], seed, Dev::None, &comms, &proof, program::LABEL).result
                 }
